@@ -25,7 +25,7 @@ def validEntity (names : List (List B)) (s : List B) : Bool :=
 def entTable : Ent := ⟨validEntity Gomjml.Gen.Parser.namedEntitiesB⟩
 
 /-- `escapeAttributeAmpersands` -/
-def escapeAmp (s : List B) : List B := esc entTable false 0 s
+def escapeAmp (s : List B) : List B := esc entTable false 0 0 0 s
 
 /-! ### `strings.ReplaceAll` (non-empty `old`, non-overlapping, left to right) -/
 
@@ -42,9 +42,130 @@ decreasing_by
     simp only [List.length_drop, List.length_cons]; omega
   · simp
 
+def cdStart : List B := [60, 33, 91, 67, 68, 65, 84, 65, 91]   -- "<![CDATA["
+def cdEnd : List B := [93, 93, 62]                              -- "]]>"
+def cdEndSafe : List B := [93, 93, 93, 93, 62] ++ cdStart ++ [62]  -- "]]]]><![CDATA[>"
+def cmStart : List B := [60, 33, 45, 45]                        -- "<!--"
+def cmEnd : List B := [45, 45, 62]                              -- "-->"
+
+/-- what is left behind the first occurrence of `pat` -/
+def afterPat (pat : List B) : List B → Option (List B)
+  | [] => none
+  | b :: r => if pat.isPrefixOf (b :: r) then some ((b :: r).drop pat.length) else afterPat pat r
+
+theorem afterPat_length (pat : List B) : ∀ (s r : List B), afterPat pat s = some r → r.length ≤ s.length
+  | [], _, h => by simp [afterPat] at h
+  | b :: t, r, h => by
+    unfold afterPat at h
+    split at h
+    · simp at h; subst h; simp [List.length_drop]
+    · have := afterPat_length pat t r h; simp; omega
+
+/-- `nonMarkupEnd`, as a length: the comment or CDATA section that starts at the head of `s` (up to the end of the text when it
+    is not terminated); 0 when neither starts there -/
+def nonMarkupLen (s : List B) : Nat :=
+  if cmStart.isPrefixOf s then
+    match afterPat cmEnd (s.drop cmStart.length) with
+    | some r => s.length - r.length
+    | none => s.length
+  else if cdStart.isPrefixOf s then
+    match afterPat cdEnd (s.drop cdStart.length) with
+    | some r => s.length - r.length
+    | none => s.length
+  else 0
+
+theorem nonMarkupLen_le (s : List B) : nonMarkupLen s ≤ s.length := by
+  unfold nonMarkupLen; split
+  · split <;> omega
+  · split
+    · split <;> omega
+    · omega
+
+/-- a text that does not start with `<` starts neither a comment nor a CDATA section -/
+theorem nonMarkupLen_head (s : List B) (h : s.head? ≠ some 60) : nonMarkupLen s = 0 := by
+  cases s with
+  | nil => simp [nonMarkupLen, cmStart, cdStart, List.isPrefixOf]
+  | cons b r =>
+    have hb : b ≠ 60 := by simpa using h
+    have hb' : ((60 : B) == b) = false := by simpa using Ne.symm hb
+    simp [nonMarkupLen, cmStart, cdStart, List.isPrefixOf, hb']
+
+/-- `replaceInMarkup`: `strings.ReplaceAll` that copies comments and CDATA sections as they are -/
+def replaceAllM (old new : List B) (s : List B) : List B :=
+  if hold : old = [] then s else
+  match s with
+  | [] => []
+  | b :: rest =>
+    if hk : 0 < nonMarkupLen (b :: rest) then
+      (b :: rest).take (nonMarkupLen (b :: rest)) ++ replaceAllM old new ((b :: rest).drop (nonMarkupLen (b :: rest)))
+    else if old.isPrefixOf (b :: rest) then new ++ replaceAllM old new ((b :: rest).drop old.length)
+    else b :: replaceAllM old new rest
+termination_by s.length
+decreasing_by
+  · simp only [List.length_drop, List.length_cons]; omega
+  · have : 0 < old.length := by cases old <;> simp_all
+    simp only [List.length_drop, List.length_cons]; omega
+  · simp
+
 /-- `preprocessHTMLEntities`: the ampersand pass, then every regenerated replacement step in source order -/
 def entities (s : List B) : List B :=
-  Gomjml.Gen.Parser.entityStepsB.foldl (fun acc st => replaceAll st.1 st.2 acc) (escapeAmp s)
+  Gomjml.Gen.Parser.entityStepsB.foldl (fun acc st => replaceAllM st.1 st.2 acc) (escapeAmp s)
+
+theorem replaceAllM_no_first (old new : List B) (c : B) (r : List B) (ho : old = c :: r) :
+    ∀ (n : Nat) (s : List B), s.length ≤ n → (∀ b ∈ s, b ≠ c) → replaceAllM old new s = s := by
+  intro n
+  induction n with
+  | zero =>
+    intro s hs _
+    have : s = [] := List.eq_nil_of_length_eq_zero (by omega)
+    subst this; unfold replaceAllM; simp [ho]
+  | succ n ih =>
+    intro s hs h
+    cases s with
+    | nil => unfold replaceAllM; simp [ho]
+    | cons b rest =>
+      have hb : b ≠ c := h b (by simp)
+      unfold replaceAllM
+      have hne : ¬ old = [] := by simp [ho]
+      simp only [hne, dite_false]
+      by_cases hk : 0 < nonMarkupLen (b :: rest)
+      · simp only [hk, dite_true]
+        rw [ih _ (by simp only [List.length_drop, List.length_cons] at hs ⊢; omega)
+          (fun x hx => h x (List.mem_of_mem_drop hx))]
+        exact List.take_append_drop _ _
+      · simp only [hk, dite_false]
+        have hp : old.isPrefixOf (b :: rest) = false := by
+          subst ho
+          simp [List.isPrefixOf, Ne.symm hb]
+        simp only [hp, Bool.false_eq_true, if_false]
+        rw [ih rest (by simp at hs; omega) (fun x hx => h x (by simp [hx]))]
+
+/-- **a named entity is read like its character**: where the text starts with the entity (which starts with `&`, not `<`),
+    the replacement step writes the character's bytes and goes on behind the entity -/
+theorem replaceAllM_prefix (old new rest : List B) (h : old.head? = some amp) :
+    replaceAllM old new (old ++ rest) = new ++ replaceAllM old new rest := by
+  cases hold : old with
+  | nil => simp [hold] at h
+  | cons b r =>
+    have hb : b = amp := by simpa [hold] using h
+    have hp : (b :: r).isPrefixOf (b :: (r ++ rest)) = true := by
+      rw [show b :: (r ++ rest) = (b :: r) ++ rest from rfl]
+      exact List.isPrefixOf_iff_prefix.mpr (List.prefix_append _ _)
+    have hk : ¬ 0 < nonMarkupLen (b :: (r ++ rest)) := by
+      rw [nonMarkupLen_head _ (by subst hb; simp [amp])]; omega
+    conv => lhs; unfold replaceAllM
+    simp only [List.cons_append, reduceCtorEq, dite_false, hk, hp, if_true]
+    congr 1
+    simp
+
+/-- a comment or CDATA section at the head of the text is copied as it is -/
+theorem replaceAllM_block (old new s : List B) (ho : old ≠ []) (hk : 0 < nonMarkupLen s) :
+    replaceAllM old new s = s.take (nonMarkupLen s) ++ replaceAllM old new (s.drop (nonMarkupLen s)) := by
+  cases s with
+  | nil => simp [nonMarkupLen, cmStart, cdStart, List.isPrefixOf] at hk
+  | cons b rest =>
+    conv => lhs; unfold replaceAllM
+    simp only [ho, dite_false, hk, dite_true]
 
 theorem replaceAll_no_first (old new : List B) (c : B) (r : List B) (ho : old = c :: r) :
     ∀ (s : List B), (∀ b ∈ s, b ≠ c) → replaceAll old new s = s := by
@@ -85,10 +206,10 @@ theorem steps_start_with_amp :
 /-- **strict documents pass unchanged**: a text without any `&` is left byte-for-byte as it is by `preprocessHTMLEntities` -/
 theorem entities_noamp (s : List B) (h : ∀ b ∈ s, b ≠ amp) : entities s = s := by
   unfold entities
-  have h0 : escapeAmp s = s := esc_noamp _ s false 0 h
+  have h0 : escapeAmp s = s := esc_noamp _ s false 0 0 0 h
   rw [h0]
   have : ∀ (steps : List (List B × List B)), (∀ st ∈ steps, st.1.head? = some amp) →
-      steps.foldl (fun acc st => replaceAll st.1 st.2 acc) s = s := by
+      steps.foldl (fun acc st => replaceAllM st.1 st.2 acc) s = s := by
     intro steps
     induction steps with
     | nil => intro _; rfl
@@ -101,7 +222,7 @@ theorem entities_noamp (s : List B) (h : ∀ b ∈ s, b ≠ amp) : entities s = 
       | cons c rr =>
         simp [hb] at hst
         subst hst
-        rw [replaceAll_no_first (amp :: rr) _ amp rr rfl s h]
+        rw [replaceAllM_no_first (amp :: rr) _ amp rr rfl s.length s (Nat.le_refl _) h]
         exact ih (fun x hx => hs x (by simp [hx]))
   exact this _ steps_start_with_amp.2
 
@@ -176,9 +297,6 @@ def strip (s : List B) : List B :=
 
 /-! ### CDATA escaping of `wrapMJTextContent` and the XML layer's decoding -/
 
-def cdStart : List B := [60, 33, 91, 67, 68, 65, 84, 65, 91]   -- "<![CDATA["
-def cdEnd : List B := [93, 93, 62]                              -- "]]>"
-def cdEndSafe : List B := [93, 93, 93, 93, 62] ++ cdStart ++ [62]  -- "]]]]><![CDATA[>"
 
 end Gomjml.Passes
 
